@@ -602,7 +602,7 @@ def drive(pid, prop, a, seed, scratch, t0):
     tier = a.tier
     specs = [j for j in prop.jobs if j.tier != "x" and (tier == "thorough" or j.tier == "q")]  # tier "x": kept in the registry for reference, measured out of reach
     if a.only:
-        specs = [j for j in specs if a.only in j.harness]
+        specs = [j for j in specs if any(x in j.harness for x in a.only.split(','))]
     if not specs:
         raise SystemExit2("no harness selected")
     log("property %s tier %s: %d harnesses" % (pid, tier, len(specs)))
